@@ -13,7 +13,7 @@ CFG = dict(
          "~2.5%): the REAL ljh.Writer / ljh.Writer3 / off.Writer writing to a named pipe with a 4 KiB kernel buffer that the harness drains or not, "
          "until the 1000-deep queue is full and 1..60 records have been rejected per stall phase, then resume, Flush, Close; three directed cases per quick run (3 s; 36 per thorough run, 3..5 s) keep the pipe stalled for SECONDS after Close (30%: also after a Flush) was issued with the queue full — longer than any plausible give-up timeout; they run concurrently in different worker chunks; expected record bytes come "
          "from a second never-stalled writer of the same type. PD (2 fixed + ~0.5%): records pushed through the real ProcessSegments -> processSegment -> "
-         "PublishData with the channel's LJH2.2/LJH3/OFF writers on stalled pipes. The oracle chkC07 (file at every Flush/Close return = header ++ whole "
+         "PublishData with the channel's LJH2.2/LJH3/OFF writers on stalled pipes. PUB (3 fixed + ~6%): a real DataPublisher with real writers on regular files, histories of PublishData / Flush / SetPause(true|false) / publish while paused / Remove*, every file read immediately after each Flush/SetPause/Remove return. The oracle chkC07 (file at every Flush/Close return = header ++ whole "
          "accepted records in order; prefix otherwise) judges the real observations. Non-trivial = the queue was full at least once (a Write rejected); "
          "distinct by input line.",
     nontrivial=["full"],
